@@ -117,6 +117,24 @@ def cmp_dict(ctx, cls, got, exp, scale, clause, keys, missing_is_zero=False, **d
     return True
 
 
+def cmp_subset(ctx, cls, got, exp, scale, clause, keys, **detail):
+    """An explicit substance_keys request: exactly the requested keys, each with its reference value."""
+    if isinstance(got, dict) and set(got) != set(keys):
+        ctx.fail(clause + ":key_set", requested=list(keys), missing=sorted(k for k in keys if k not in got),
+                 extra=sorted(str(k) for k in got if k not in keys), **detail)
+        return False
+    return cmp_dict(ctx, cls, got, exp, scale, clause + ":value", keys, requested=list(keys), **detail)
+
+
+def _subsets(case, present=None):
+    out = []
+    for ks in case.get("subsets", ()):
+        ks = [k for k in ks if present is None or k in present]
+        if ks and ks not in out:
+            out.append(ks)
+    return out
+
+
 def _labels(case, ctx):
     lbls, s = G.system_labels(case["sys"])
     ctx.label("cls=" + case["cls"], "subs=" + case.get("subs_kind", "keys"), *lbls)
@@ -202,6 +220,13 @@ def check_reaction(case, ctx):
             return
         if not cmp_dict(ctx, cls, got_all, exp, scale, "rate:value_explicit_keys", subs, rxn=r, index=i):
             return
+        # (b') proper subsets (single key, permuted, only bystanders): exactly the requested keys
+        for ks in _subsets(case):
+            if not set(ks) & set(own):
+                ctx.label("subset_of_bystanders_only")
+            got_s = rx.rate(dict(variables), substance_keys=list(ks))
+            if not cmp_subset(ctx, cls, got_s, exp, scale, "rate:subset", ks, rxn=r, index=i):
+                return
         # (c) nothing but the active reactants enters: change every other concentration, same result
         passive = [s for s in subs if s not in r["reac"]]
         if passive:
@@ -258,6 +283,15 @@ def check_system(case, ctx):
         return
     if not cmp_dict(ctx, cls, got_all, exp, scale, "rates:value_explicit_keys", subs):
         return
+    touched = set(k for r in sysd["rxns"] for k in G.rxn_keys(r))
+    for ks in _subsets(case):
+        if not set(ks) & touched:
+            ctx.label("subset_of_nonparticipating_only")
+        got_s = rsys.rates(dict(variables), substance_keys=list(ks))
+        if not unchanged.check("ReactionSystem.rates(substance_keys=subset)"):
+            return
+        if not cmp_subset(ctx, cls, got_s, exp, scale, "rates:subset", ks):
+            return
     perm = case["perm"]
     if perm != sorted(perm):
         ctx.label("permuted")
@@ -375,6 +409,15 @@ def check_cstr(case, ctx):
         return
     if not cmp_dict(ctx, cls, got_all, exp, scale, "cstr:value_explicit_keys", subs, feed=sorted(fc)):
         return
+    # (a') proper subsets of the substances
+    for ks in _subsets(case):
+        if not set(ks) & (participating | set(fc)):
+            ctx.label("subset_of_nonparticipating_unfed_only")
+        got_s = rsys.rates(dict(variables), substance_keys=list(ks), cstr_fr_fc=(FR_KEY, dict(fcmap)))
+        extra = sorted(k for k in got_s if k not in ks) if isinstance(got_s, dict) else []
+        if not cmp_subset(ctx, cls, got_s, exp, scale, "cstr:subset", ks, feed=sorted(fc),
+                          extra_are_all_fed=bool(extra) and all(k in fc for k in extra)):
+            break
     # (b) default keys (what get_odesys(cstr=True) does)
     if lonely:
         ctx.label("feed_to_nonparticipating")
@@ -562,6 +605,11 @@ def check_history(case, ctx):
         if not cmp_dict(ctx, cls, got, exp, scale, "history:rates", subs, missing_is_zero=True, evaluation=n_eval,
                         substances=subs):
             return
+        for ks in _subsets(case, present=subs):
+            got_s = rsys.rates(dict(variables), substance_keys=list(ks))
+            if not cmp_subset(ctx, cls, got_s, exp, scale, "history:rates:subset", ks, evaluation=n_eval,
+                              substances=subs):
+                return
         conc_list = [G.native(case[which][k]) for k in subs]
         extra = _variables_argument(dict(case, sys=sysd), ctx, alt_key=other_vals)
         rates = list(law_of_mass_action_rates(conc_list, rsys, *extra))
